@@ -5,6 +5,7 @@ package main
 // message together with the application-level hand-over events the harness adds.
 
 import (
+	"context"
 	"fmt"
 	"hash/fnv"
 	"strings"
@@ -29,10 +30,154 @@ type poolTracker struct {
 	ids   map[*pool.Message]int
 	log   []lcEvent
 	holds map[*pool.Message]uint64
+	// accept, when non-nil, restricts the pool events that are recorded to the pools of the running
+	// scenario (late events of goroutines that an earlier scenario left behind are not part of its trace)
+	accept map[*pool.Pool]bool
+	// online copy of the ownership automaton, used ONLY to cut a scenario short once the trace already contains
+	// a violation (a corrupted pool makes the remaining operations hang until their watchdogs fire); the verdict
+	// on every trace is Coq's
+	state    map[int]byte // 0 live, 1 held, 2 releasing, 3 freed, 4 pooled
+	broken   bool
+	nBroken  int
+	badCtx   context.Context
+	badAbort context.CancelFunc
+	panics   []string
+}
+
+// note feeds one event to the online automaton (caller holds t.mu).
+func (t *poolTracker) note(e lcEvent) {
+	st := t.state[e.Obj]
+	bad := false
+	switch e.Kind {
+	case "Rel":
+		bad = st == 1 || st == 3 || st == 4
+		st = 3
+	case "Rec":
+		bad = st != 3
+		st = 4
+	case "Reacq":
+		bad = st != 4 || !e.OK
+		st = 0
+	case "Hold":
+		bad = st != 0
+		st = 1
+	case "Unhold":
+		bad = st != 1 || !e.OK
+		st = 0
+	case "AppRel":
+		bad = st >= 2
+		st = 2
+	}
+	t.state[e.Obj] = st
+	if bad && !t.broken {
+		t.broken = true
+		t.nBroken++
+		if t.badAbort != nil {
+			t.badAbort()
+		}
+	}
+}
+
+// notePanic records a panic of library code on a receive path of the current scenario (recovered by the
+// ProcessReceivedMessage wrapper the harness installs); the scenario is cut short like after a violation.
+func (t *poolTracker) notePanic(r interface{}) {
+	t.mu.Lock()
+	t.panics = append(t.panics, fmt.Sprint(r))
+	if !t.broken {
+		t.broken = true
+		t.nBroken++
+		if t.badAbort != nil {
+			t.badAbort()
+		}
+	}
+	t.mu.Unlock()
+}
+
+func (t *poolTracker) takePanics() []string {
+	t.mu.Lock()
+	defer t.mu.Unlock()
+	p := t.panics
+	t.panics = nil
+	return p
+}
+
+// bad reports whether the current scenario's trace already contains a violation.
+func (t *poolTracker) bad() bool {
+	t.mu.Lock()
+	defer t.mu.Unlock()
+	return t.broken
+}
+
+// ctx is cancelled as soon as the current scenario's trace contains a violation.
+func (t *poolTracker) ctx() context.Context {
+	t.mu.Lock()
+	defer t.mu.Unlock()
+	if t.badCtx == nil {
+		return context.Background()
+	}
+	return t.badCtx
+}
+
+func (t *poolTracker) add(e lcEvent) {
+	t.log = append(t.log, e)
+	t.note(e)
+}
+
+// scenario starts a new trace: the log and the numbering are reset; only events of the given pools are
+// recorded from now on (no pools = all).
+func (t *poolTracker) scenario(pools ...*pool.Pool) {
+	t.mu.Lock()
+	t.log = nil
+	t.ids = map[*pool.Message]int{}
+	t.holds = map[*pool.Message]uint64{}
+	t.state = map[int]byte{}
+	t.broken = false
+	if t.badAbort != nil {
+		t.badAbort()
+	}
+	t.badCtx, t.badAbort = context.WithCancel(context.Background())
+	t.accept = nil
+	if len(pools) > 0 {
+		t.accept = map[*pool.Pool]bool{}
+		for _, p := range pools {
+			t.accept[p] = true
+		}
+	}
+	t.mu.Unlock()
+}
+
+func (t *poolTracker) addPool(p *pool.Pool) {
+	t.mu.Lock()
+	if t.accept == nil {
+		t.accept = map[*pool.Pool]bool{}
+	}
+	t.accept[p] = true
+	t.mu.Unlock()
+}
+
+func (t *poolTracker) skip(p *pool.Pool) bool { return t.accept != nil && !t.accept[p] }
+
+// helpers for the history runners shared with other properties: no-ops unless a C12 run is in progress
+func trkHold(m *pool.Message) {
+	if activeTracker != nil && m != nil {
+		activeTracker.Hold(m)
+	}
+}
+
+func trkUnhold(m *pool.Message) {
+	if activeTracker != nil && m != nil {
+		activeTracker.Unhold(m)
+	}
+}
+
+func trkAppRel(m *pool.Message) {
+	if activeTracker != nil && m != nil {
+		activeTracker.AppRel(m)
+	}
 }
 
 func newPoolTracker() *poolTracker {
-	return &poolTracker{ids: map[*pool.Message]int{}, holds: map[*pool.Message]uint64{}, relCh: map[*pool.Message]chan struct{}{}}
+	return &poolTracker{ids: map[*pool.Message]int{}, holds: map[*pool.Message]uint64{}, relCh: map[*pool.Message]chan struct{}{}, state: map[int]byte{}}
 }
 
 func (t *poolTracker) id(m *pool.Message) int {
@@ -44,9 +189,13 @@ func (t *poolTracker) id(m *pool.Message) int {
 	return v
 }
 
-func (t *poolTracker) Released(_ *pool.Pool, m *pool.Message) {
+func (t *poolTracker) Released(p *pool.Pool, m *pool.Message) {
 	t.mu.Lock()
-	t.log = append(t.log, lcEvent{"Rel", t.id(m), true})
+	if t.skip(p) {
+		t.mu.Unlock()
+		return
+	}
+	t.add(lcEvent{"Rel", t.id(m), true})
 	if ch, ok := t.relCh[m]; ok {
 		close(ch)
 		delete(t.relCh, m)
@@ -73,18 +222,26 @@ func (t *poolTracker) waitReleased(m *pool.Message, d time.Duration) {
 	}
 }
 
-func (t *poolTracker) Recycled(_ *pool.Pool, m *pool.Message) {
+func (t *poolTracker) Recycled(p *pool.Pool, m *pool.Message) {
 	m.VerifPoison()
 	t.mu.Lock()
-	t.log = append(t.log, lcEvent{"Rec", t.id(m), true})
+	if t.skip(p) {
+		t.mu.Unlock()
+		return
+	}
+	t.add(lcEvent{"Rec", t.id(m), true})
 	t.mu.Unlock()
 }
 
-func (t *poolTracker) Reacquired(_ *pool.Pool, m *pool.Message) {
+func (t *poolTracker) Reacquired(p *pool.Pool, m *pool.Message) {
 	ok := m.VerifPoisoned()
 	m.VerifUnpoison()
 	t.mu.Lock()
-	t.log = append(t.log, lcEvent{"Reacq", t.id(m), ok})
+	if t.skip(p) {
+		t.mu.Unlock()
+		return
+	}
+	t.add(lcEvent{"Reacq", t.id(m), ok})
 	t.mu.Unlock()
 }
 
@@ -107,7 +264,7 @@ func (t *poolTracker) Hold(m *pool.Message) {
 	d := msgDigest(m)
 	t.mu.Lock()
 	t.holds[m] = d
-	t.log = append(t.log, lcEvent{"Hold", t.id(m), true})
+	t.add(lcEvent{"Hold", t.id(m), true})
 	t.mu.Unlock()
 }
 
@@ -117,15 +274,22 @@ func (t *poolTracker) Unhold(m *pool.Message) {
 	t.mu.Lock()
 	same := t.holds[m] == d
 	delete(t.holds, m)
-	t.log = append(t.log, lcEvent{"Unhold", t.id(m), same})
+	t.add(lcEvent{"Unhold", t.id(m), same})
 	t.mu.Unlock()
 }
 
 // AppRel: the application is about to release m itself.
 func (t *poolTracker) AppRel(m *pool.Message) {
 	t.mu.Lock()
-	t.log = append(t.log, lcEvent{"AppRel", t.id(m), true})
+	t.add(lcEvent{"AppRel", t.id(m), true})
 	t.mu.Unlock()
+}
+
+// peek returns the events recorded so far (the slice is only appended to).
+func (t *poolTracker) peek() []lcEvent {
+	t.mu.Lock()
+	defer t.mu.Unlock()
+	return t.log
 }
 
 func (t *poolTracker) take() []lcEvent {
